@@ -552,7 +552,12 @@ void eval_svx(Ctx &x, int opi, const OpSpec &op, const XOut &xo, const std::vect
             if (notran && colequ) sc = xo.C[i]; else if (!notran && rowequ) sc = xo.R[i];
             Xs[(size_t)j * n + i] = X[(size_t)j * n + i] / sc;
         }
-        std::vector<ld> w = true_berr(Aeff_s, Bout, Xs, nrhs, prec_is_complex(c.prec));
+        std::vector<ld> minden;
+        std::vector<ld> w = true_berr(Aeff_s, Bout, Xs, nrhs, prec_is_complex(c.prec), &minden);
+        // rows whose |A||x|+|b| lies in the underflow range of the working precision (solution components that decay over hundreds of orders
+        // of magnitude, e.g. a triangular system with a right-hand side that is zero except at the end): the library evaluates residual and
+        // denominator there with gradual underflow and LAPACK's safe1/safe2 shielding, so its berr may be anything up to 1 in those rows
+        ld tiny_den = (prec_is_single(c.prec) ? (ld)1.1754944e-38L : (ld)2.2250738585072014e-308L) * (n + 1) / (eps * eps);
         // exact solution of the system the driver refined (equilibrated data as stored), mapped back like X
         std::vector<cld> Xref;
         bool haveref = ref_solve(Aeff_s, Bout, nrhs, Xref);
@@ -568,6 +573,7 @@ void eval_svx(Ctx &x, int opi, const OpSpec &op, const XOut &xo, const std::vect
             bool ferr_class = cond_used < 0.1L / eps;
             if (!(b >= 0) || (ferr_class && (!(f >= 0) || !(f < INFINITY)))) { add_viol(o, "C13", "bounds_not_finite_nonnegative", fmt("berr=%.3Le ferr=%.3Le", b, f), opi); break; }
             if (!ferr_class && (!(f >= 0) || !(f < INFINITY))) o.excl["ferr_not_finite_outside_admitted_class"]++;
+            if (minden[j] < tiny_den) { o.excl["berr_rows_in_underflow_range"]++; continue; }
             ld tol = 2.0L * (n + 2) * ee + 1e-6L * w[j];
             if (!(fabsl(b - w[j]) <= tol)) { add_viol(o, "C13", "berr_not_truthful", fmt("rhs %d: berr=%.6Le but true componentwise backward error of the returned X is %.6Le (trans=%d %s equed=%d)", j, b, w[j], t, c.stype_nr ? "NR" : "NC", xo.equed), opi); break; }
             o.probes["svx_berr_checked"]++;
@@ -753,7 +759,7 @@ Outcome run_case(Case &c, const RunnerOpts &ro) {
     if (!is_perm(x.base_perm_c, n)) add_viol(out, "C10", "ordering_not_bijection", "get_perm_c result is not a permutation", -1);
 
     SvxState svx_state;
-    bool last_fact_ok = false, last_fact_singular = false, skip_rest = false;
+    bool last_fact_ok = false, last_fact_singular = false, skip_rest = false, factors_layout_tagged = false;
     bool leakprof = c.profile == "leak" || c.profile == "symleak";
     if (leakprof) sim::forget_live_blocks();
     int reps = leakprof ? 2 : 1;
@@ -797,7 +803,11 @@ Outcome run_case(Case &c, const RunnerOpts &ro) {
         if (!g_sig_suffix.empty() && sim::result_fd >= 0) { std::string t = "T " + g_sig_suffix + "\n"; if (write(sim::result_fd, t.data(), t.size()) < 0) {} }
         if (op.ienv[3] < op.ienv[2]) out.probes["cfg_maxsuper_lt_relax"]++;
         if (op.x.sym_mode) { g_sig_suffix += "@symmetric_mode"; out.probes["cfg_symmetric_mode"]++; }
-        if (prec_is_complex(c.prec) && c.stype_nr && op.x.trans == 2 && (op.kind == OP_GSSVX || op.kind == OP_GSTRS || op.kind == OP_ROUTE)) { g_sig_suffix += "@complex_rowwise_conj"; out.probes["cfg_complex_rowwise_conj"]++; }
+        if (prec_is_complex(c.prec) && c.stype_nr && op.x.trans == 2 && (op.kind == OP_GSSVX || op.kind == OP_GSTRS || op.kind == OP_ROUTE)) { out.probes["cfg_complex_rowwise_conj"]++; }   /* D19 (repaired): no context tag any more */
+        {   // operations that reuse factors inherit the layout class (a precondition of a listed finding) of the factorization that produced them
+            bool reuses = (op.kind == OP_GSSVX && op.x.fact == 2) || op.kind == OP_GSTRS;
+            if (reuses && factors_layout_tagged) g_sig_suffix += "@relaxed_snode_inside_h_supernode";
+        }
         if (op.dyn_snode) setenv("SuperLU_DYNAMIC_SNODE_STORE", "1", 1); else unsetenv("SuperLU_DYNAMIC_SNODE_STORE");
         bool factorizing = (op.kind == OP_GSSV) || (op.kind == OP_ROUTE) || (op.kind == OP_GSSVX && op.x.fact != 2);
         // a factorization starts from the caller's matrix (an earlier EQUILIBRATE call may have scaled A in place)
@@ -874,6 +884,7 @@ Outcome run_case(Case &c, const RunnerOpts &ro) {
             if (op.x.refact && last_fact_singular) { out.probes["refactorizations_after_singular_factorization"]++; if (op.x.usepr) out.probes["pivot_reuse_after_singular_factorization"]++; }
             last_fact_ok = (info == 0) || (op.kind == OP_GSSVX && info == n + 1);
             last_fact_singular = info > 0 && info <= n;
+            factors_layout_tagged = g_sig_suffix.find("@relaxed_snode_inside_h_supernode") != std::string::npos;
         }
         if (c.profile == "forest" && info == 0 && (int)drv.get_etree().size() == n) {
             // the enumeration is over elimination forests: confirm that the library worked on the intended one
